@@ -118,7 +118,7 @@ package fiber
 //@   props C05 C03 C02 C07 C06
 //@   requires wf: ctxWF(c)
 //@   modifies c.path, c.detectionPath, c.treePathHash, elems(c.path), elems(c.detectionPath)
-//@   atcall @fasthttp.AppendUnquotedArg: decodes-this-path: str(src) == c.pathOriginal
+//@   atcall unescapePathBytes: decodes-this-path: str(src) == c.pathOriginal
 //@   atcall @utils.ToLowerBytes: lowers-own-buffer: arr(c.path) != arr(b) && b == c.detectionPath
 //@   atcall @utils.ToLowerBytes: folds-copy-of-path: str(b) == str(c.path)
 //@   atcall @utils.TrimRight: trims-the-folded-path: s == c.detectionPath && str(s) == foldCase(str(c.path), c.app.config.CaseSensitive)
